@@ -44,7 +44,9 @@ Q == 39
 StrAlpha == {120, 32, Q, 37, 95, 92, 34, 233, 128165, 10}
 StrContents == {<<>>} \cup { <<c>> : c \in StrAlpha } \cup { <<c, d>> : c \in StrAlpha, d \in StrAlpha }
                \cup { <<c, d, e>> : c \in {120, Q, 37}, d \in StrAlpha, e \in {120, Q, 92} }
-               \cup { S("null"), S(" eq "), S("it's"), S("''"), S("a' or '1'='1"), S("duration'P1D'"), S("2020-01-01") }
+               \cup { S("null"), S(" eq "), S("it's"), S("''"), S("a' or '1'='1"), S("duration'P1D'"), S("2020-01-01"),
+                      \* text that is not in Unicode normal form C (decomposed accent, ANGSTROM SIGN, OHM SIGN, Hangul jamo)
+                      <<99, 97, 102, 101, 769>>, <<8491>>, <<8486, 120>>, <<4352, 4449, 4520>> }
 Strings == { Case("String", <<Q>> \o EscapeQuotes(c) \o <<Q>>, c, <<"str", c>>) : c \in StrContents }
 Geographies == { Case("Geography", S(p) \o <<Q>> \o S(c) \o <<Q>>, S(c), <<"geo", S(c)>>) :
                    p \in {"geography", "GEOGRAPHY", "Geography"},
